@@ -188,3 +188,20 @@ Definition from_dict_agrees (c : list vdef * observed * list (list nat)) : bool 
 (** a constructor case with its own key sets *)
 Definition ctor_agrees (c : list nat * graph * observed) : bool :=
   let '(vk, g, o) := c in fagrees (ctor vk g) o.
+
+(** ** The definitions of the shipped models (regenerated: coq/gen/GenC15Defs.v) against the graph literals of GenGraphs.v *)
+
+Definition def_kind (d : vdef) : vkind := match d with DIndep k => k | DLinked _ => KLinked end.
+
+(** the classes, the direct ancestors (as sets) and the order recorded in a shipped graph literal are what the model
+    computes from the definitions' signatures *)
+Definition defs_match (sg : shipped_graph) (ds : list vdef) : bool :=
+  list_eqb vkind_eqb (map def_kind ds) (sg_kind sg) &&
+  match direct_ancestors ds with
+  | Some g => list_eqb (fun a b => same_set a b) g (sg_parents sg)
+  | None => false
+  end &&
+  match from_dict ds with
+  | FOk r => nat_list_eqb (order r) (sg_order sg)
+  | FErr _ => false
+  end.
